@@ -52,6 +52,19 @@ def enc(ns, v):
     raise MachineryError(f"cannot encode {type(v)}")
 
 
+def scale_of(ns, v):
+    """base units per current unit of a value, as an integer fraction"""
+    from fractions import Fraction
+    if isinstance(v, ns.ExplainableHourlyQuantities):
+        units = v.value.dtypes.iloc[0].units
+    elif isinstance(v, ns.ExplainableQuantity):
+        units = v.value.units
+    else:
+        return 1, 1
+    fr = Fraction(efx._base_factor(ns, units)).limit_denominator(10 ** 6)
+    return fr.numerator, fr.denominator
+
+
 def catalogue(ns):
     u = ns.u
 
@@ -63,7 +76,8 @@ def catalogue(ns):
     ops = {
         "empty": lambda: ns.EmptyExplainableObject(),
         "12W": lambda: ns.SourceValue(12 * u.W), "4kW": lambda: ns.SourceValue(4 * u.kW), "0W": lambda: ns.SourceValue(0 * u.W),
-        "3B": lambda: ns.SourceValue(3 * u.B), "6": lambda: ns.SourceValue(6 * u.dimensionless),
+        "3B": lambda: ns.SourceValue(3 * u.B), "2.5kB": lambda: ns.SourceValue(2.5 * u.kB),
+        "H[0.5,-1.5,2.25]kB@0": lambda: hq([0.5, -1.5, 2.25], 0, "kB", True), "6": lambda: ns.SourceValue(6 * u.dimensionless),
         "2h": lambda: ns.SourceValue(2 * u.hour), "2core": lambda: ns.SourceValue(2 * u.cpu_core),
         "H[12,24,36]W@0": lambda: hq([12, 24, 36], 0, "W", True), "H[1,2]kW@1": lambda: hq([1, 2], 1, "kW", True),
         "H[6]W@5": lambda: hq([6], 5, "W", True), "H[12,24,36]W@0naive": lambda: hq([12, 24, 36], 0, "W", False),
@@ -71,6 +85,31 @@ def catalogue(ns):
         "H[2,4,6]@0": lambda: hq([2, 4, 6], 0, "dimensionless", True), "H[4,4]core@2": lambda: hq([4, 4], 2, "cpu_core", True),
     }
     return ops
+
+
+ALT_UNIT = {"W": "kW", "kW": "W", "B": "kB", "kB": "MB", "hour": "min"}
+
+
+def prepared(ns, make, how):
+    """an operand with a history: 'conv' = its unit was read and it was then converted in place to another unit of the same
+    dimension; 'alias' = a value derived from it by adding an empty value had its unit read and was converted"""
+    x = make()
+    if how == "fresh" or isinstance(x, ns.EmptyExplainableObject):
+        return x
+    unit = str(x.unit) if hasattr(x, "unit") and not isinstance(x, ns.ExplainableQuantity) else str(x.value.units)
+    alt = ALT_UNIT.get({"watt": "W", "kilowatt": "kW", "byte": "B"}.get(unit, unit))
+    if alt is None:
+        return x
+    if how == "conv":
+        x.to(ns.u(alt).units)
+        return x
+    y = x + ns.EmptyExplainableObject()
+    _ = getattr(y, "unit", None)
+    try:
+        y.to(ns.u(alt).units)
+    except Exception:   # noqa
+        pass
+    return x
 
 
 def attempt(fn):
@@ -86,33 +125,35 @@ def record(ns, tier, rng):
     events, tid = [], 0
     binops = {"+": lambda a, b: a + b, "-": lambda a, b: a - b, "*": lambda a, b: a * b, "/": lambda a, b: a / b,
               "max": lambda a, b: a.np_compared_with(b, "max"), "min": lambda a, b: a.np_compared_with(b, "min")}
-    for ln, rn in itertools.product(names, names):
+    for (ln, rn), (lprep, rprep) in itertools.product(itertools.product(names, names),
+                                                      [("fresh", "fresh"), ("conv", "alias"), ("alias", "conv")]):
         for op, fn in binops.items():
             if op in ("max", "min") and not (ln.startswith(("H", "empty")) and rn.startswith(("H", "empty"))):
                 continue
             if op in ("max", "min") and ("naive" in ln) != ("naive" in rn) and not (ln == "empty" or rn == "empty"):
                 continue     # positional before the fix, by timestamp after: mixing naive and aware is out of scope
-            l, r = cat[ln](), cat[rn]()
+            l, r = prepared(ns, cat[ln], lprep), prepared(ns, cat[rn], rprep)
             if op in ("max", "min") and ln != "empty" and rn != "empty" and \
                     str(l.value.dtypes.iloc[0].units) != str(r.value.dtypes.iloc[0].units):
                 continue     # np_compared_with assumes both operands were converted to the same unit
             l0, r0 = enc(ns, l), enc(ns, r)
             res = attempt(lambda: fn(l, r))
             tid += 1
-            events.append({"tid": tid, "seq": 0, "ev": "Op", "op": op, "arity": 2, "arg": 0, "names": [ln, rn], "l": l0,
+            events.append({"tid": tid, "seq": 0, "ev": "Op", "op": op, "arity": 2, "arg": 0, "names": [ln, rn, lprep, rprep], "sn": 1, "sd": 1, "l": l0,
                            "r": r0, "res": enc(ns, res), "l_after": enc(ns, l), "r_after": enc(ns, r)})
     unops = {"sum": lambda a: a.sum(), "max": None, "abs": lambda a: a.abs(), "ceil": lambda a: a.ceil(),
              "neg": lambda a: -a, "copy": lambda a: a.copy(), "round": lambda a: round(a, 2), "radd0": lambda a: 0 + a,
              "shift": None}
-    for n in names:
+    for n, prep in itertools.product(names, ["fresh", "conv", "alias"]):
         for op, fn in unops.items():
             for arg in ([0, 1, 3, 26] if op == "shift" else [0]):
-                a = cat[n]()
+                a = prepared(ns, cat[n], prep)
                 if op in ("sum", "abs", "neg", "shift", "max") and not n.startswith(("H", "empty")):
                     continue
                 if op == "neg" and n == "empty":
                     continue
                 a0 = enc(ns, a)
+                sn, sd = scale_of(ns, a)
                 if op == "shift":
                     if n == "empty":
                         continue
@@ -122,7 +163,7 @@ def record(ns, tier, rng):
                 else:
                     res = attempt(lambda: fn(a))
                 tid += 1
-                events.append({"tid": tid, "seq": 0, "ev": "Op", "op": op, "arity": 1, "arg": arg, "names": [n], "l": a0,
+                events.append({"tid": tid, "seq": 0, "ev": "Op", "op": op, "arity": 1, "arg": arg, "names": [n, prep], "sn": sn, "sd": sd, "l": a0,
                                "r": {"kind": "E"}, "res": enc(ns, res), "l_after": enc(ns, a), "r_after": {"kind": "E"}})
     # unit conversion in place must keep the physical value
     for n, unit in (("12W", "kW"), ("H[12,24,36]W@0", "kW"), ("3B", "kB"), ("2h", "min")):
@@ -130,7 +171,7 @@ def record(ns, tier, rng):
         a0 = enc(ns, a)
         res = attempt(lambda: a.to(ns.u(unit).units))
         tid += 1
-        events.append({"tid": tid, "seq": 0, "ev": "Op", "op": "copy", "arity": 1, "arg": 0, "names": [n, "to " + unit],
+        events.append({"tid": tid, "seq": 0, "ev": "Op", "op": "copy", "arity": 1, "arg": 0, "names": [n, "to " + unit], "sn": 1, "sd": 1,
                        "l": a0, "r": {"kind": "E"}, "res": enc(ns, res), "l_after": enc(ns, a), "r_after": {"kind": "E"}})
     return events
 
@@ -150,7 +191,7 @@ def run(tier, out):
         ns = efx.load()
         events = record(ns, tier, random.Random(seed_from_env()))
         trace = wd + "/c09.ndjson"
-        tracecheck.write_trace(trace, events, keys=("tid", "seq", "ev", "op", "arity", "arg", "l", "r", "res", "l_after", "r_after"))
+        tracecheck.write_trace(trace, events, keys=("tid", "seq", "ev", "op", "arity", "arg", "sn", "sd", "l", "r", "res", "l_after", "r_after"))
         fails, _n, res2 = tracecheck.validate(wd, "Trace_Quantity", trace, {})
         out.add_tlc(res2, "Trace_Quantity on recorded operations")
         out.traces += len(events)
